@@ -217,6 +217,14 @@ Definition e_P15 (v : uval) : uval :=
   let h := map getpairs (getL (arg 1 v)) in
   vbool (forallb wf_ann h && P15 (getbytes (arg 0 v)) h (map getbytes (getL (arg 2 v)))).
 Definition e_wf_ann (v : uval) : uval := vbool (wf_ann (getpairs v)).
+(* history events: [0; pairs] announcement, [1; unsupported] set-up finished *)
+Definition gethev (v : uval) : hev :=
+  match getN (arg 0 v) with 0%N => HAnn (getpairs (arg 1 v)) | _ => HSetup (getbytes (arg 1 v)) end.
+Definition e_announce_hist (v : uval) : uval := vlist vbytes (announce_hist [] [] (map gethev (getL v))).
+(* [history; observed outputs per event] *)
+Definition e_P15h (v : uval) : uval :=
+  let h := map gethev (getL (arg 0 v)) in
+  vbool (forallb wf_hev h && P15h h (map getbytes (getL (arg 1 v)))).
 
 (* ---- C16 ---- *)
 From PV Require Import Model.Setup Spec.C16.
@@ -310,6 +318,7 @@ Definition vlev (e : lev) : uval :=
   | LTimeout w n => VL [vN 4; vnat w; vnat n]
   | LUnsub n s f => VL [vN 5; vnat n; vsub s; vbool f]
   | LSub n s => VL [vN 6; vnat n; vsub s]
+  | LWait w n => VL [vN 7; vnat w; vnat n]
   end.
 Definition getlev (v : uval) : lev :=
   match getN (arg 0 v) with
@@ -319,7 +328,8 @@ Definition getlev (v : uval) : lev :=
   | 3%N => LGot (getnat (arg 1 v)) (getnat (arg 2 v)) (getZ (arg 3 v))
   | 4%N => LTimeout (getnat (arg 1 v)) (getnat (arg 2 v))
   | 5%N => LUnsub (getnat (arg 1 v)) (getsub (arg 2 v)) (getbool (arg 3 v))
-  | _ => LSub (getnat (arg 1 v)) (getsub (arg 2 v))
+  | 6%N => LSub (getnat (arg 1 v)) (getsub (arg 2 v))
+  | _ => LWait (getnat (arg 1 v)) (getnat (arg 2 v))
   end.
 (* [script; ops] -> chronological log *)
 Definition e_erun (v : uval) : uval := vlist vlev (rev (log (erun (getscript (arg 0 v)) (map geteop (getL (arg 1 v)))))).
